@@ -203,10 +203,15 @@ def pdag_to_dag(G):
             undir_nbrs = list(undir_G.neighbors(nodes[idx]))
             nearby_is_clique = False
             if len(undir_nbrs) != 0:
-                parents = dir_G.predecessors(nodes[idx])
-                # adj = full_undir_G.neighbors(nodes[idx])
-                undir_nbrs_and_parents = set(undir_nbrs).union(set(parents))
-                nearby_is_clique = is_clique(full_undir_G, undir_nbrs_and_parents)
+                # every undirected neighbor must be adjacent to every other node adjacent to x;
+                # the parents of x need not be adjacent to each other
+                adj = set(full_undir_G.neighbors(nodes[idx]))
+                nearby_is_clique = all(
+                    full_undir_G.has_edge(nbr, other)
+                    for nbr in undir_nbrs
+                    for other in adj
+                    if other != nbr
+                )
 
             if len(undir_nbrs) == 0 or nearby_is_clique:
                 found = True
